@@ -17,7 +17,7 @@ func init() {
 		{ID: "E1.merge.registered-last", Fn: "oidc.mergeAndMarshalClaims", P: []string{"registered", "extraClaims"}, Kind: "call", Pat: "json.NewDecoder($buf).Decode(&$merged)", Max: 1,
 			Why: "the registered JSON is decoded over the copy of the custom claims, so a registered claim that is set always wins",
 			Req: []string{"ok(json.NewEncoder($buf).Encode($registered))", "lt(0, len($extraClaims))",
-				"def($merged, maps.Clone($extraClaims)) || (def($merged, make(__)) && all($extraClaims, eq($merged[KEY], ELEM)))"}},
+				"def($merged, maps.Clone($extraClaims)) || (def($merged, make(__)) && all($extraClaims, eq($merged[KEY], ELEM))) || (def($merged, make(__)) && called(maps.Copy($merged, $extraClaims)))"}},
 		{ID: "E1.merge.copy-in-loop", Fn: "oidc.mergeAndMarshalClaims", P: []string{"registered", "extraClaims"}, Kind: "store", Pat: "store($merged[$k], $v)", Max: 1, Opt: true,
 			Why: "custom claims enter the merged map only as the copy of extraClaims",
 			Req: []string{"inloop($v, $extraClaims)"}},
